@@ -12,6 +12,7 @@ sites = re.findall(r'⟨(\d+), "([^"]*)", "([^"]*)", "([^"]*)", "([^"]*)"⟩', s
 M, I, O = 'modelled', 'provedIrrelevant', 'outOfPath'
 FM, FF, FO = 'flagsModelled', 'flagsHeldFixed', 'flagsInUninterpreted'
 PS = 'processLocalAccounted'
+PF = 'pinnedFacts'
 rules = [
  (('maprange', 'ChangeAssets'), M, 'keys collected, then sort.Strings (fix:) — changeAssets_order_irrelevant'),
  (('maprange', 'RefundManager.Add'), M, 'refund_add_order_irrelevant'),
@@ -99,6 +100,17 @@ rules = [
  (('gwrite', None, 'common.refundBlocks'), PS, 'idem'),
  (('gwrite', None, 'common.rewardBlocks'), PS, 'idem'),
  (('gwrite', None, 'account.rpgContractAddress'), PS, 'cache fill from the state (genesis-time constant binding); the only writes to package-level state on the execution path'),
+
+ (('order', 'VMExecutor.Execute', 'prepare,Sort,continue,Prepare,DEADLINE,break,IncreaseNonce,GetTxExecutor,BeforeExecute,continue,Snapshot,Execute,RevertToSnapshot,deductGasFee,IncreaseNonce,SetNonce,NewReceipt,GetLogs,removeUnusedValidator,removeUnusedValidator1,after,IntermediateRoot'), PF,
+   'call order of Execute: the cast deadline is tested (and the loop left) before IncreaseNonce / BeforeExecute / Execute of that transaction touch the ledger — what castBlock models and cast_cutoff_consistent uses; sort before the loop, clean-ups and after() before IntermediateRoot'),
+ (('bound', 'opBlockhash', 'GetHash iff num64 >= lower && num64 < upper'), PF,
+   'BLOCKHASH asks the node chain index only for lower <= n < BlockNumber: strictly below the executing height (Model.blockhashAsksChain, blockhash_reads_only_ancestors)'),
+ (('chainread', 'opBlockhash'), PS, 'GetHash callback = context["chain"].GetBlockHash: the node own block index; admissible arguments are ancestors only (pinned fact bound), which every replica executing on this parent stores identically'),
+ (('chainread', 'getBlockHashFn'), PS, 'the GetHash callback handed to the EVM'),
+ (('chainread', 'blockChain.GetBlockHash'), PS, 'main-chain index lookup behind GetHash (ancestors only, see bound)'),
+ (('chainread', 'syncProcessor.GetBlockHash'), PS, 'fork-path lookup behind GetHash (fork store, then main chain below the fork point)'),
+ (('chainread', 'syncProcessor.GetBlockHeader'), PS, 'idem'),
+ (('chainread', 'VMExecutor.calcDifficulty'), PS, 'header rewardBlocks below the executing height (second part of calcDifficulty, not modelled)'),
 ]
 def classify(s):
     k, kind, f, fn, det = s
@@ -109,7 +121,7 @@ def classify(s):
         return FO, 'inside Env.other (EVM / contract executor): part of the uninterpreted deterministic step, which therefore also depends on the process height'
     return None, None
 
-lists = {M: [], I: [], O: [], FM: [], FF: [], FO: [], PS: []}
+lists = {M: [], I: [], O: [], FM: [], FF: [], FO: [], PS: [], PF: []}
 missing = []
 for s in sites:
     lst, note = classify(s)
@@ -125,6 +137,7 @@ docs = {
  FM: 'proposal-flag reads that are fields of `Flags` (quantified in every theorem; `flagsAt` derives them from the process-wide height, see Props/C01B)',
  FF: 'proposal-flag reads in interpreted code whose value the model holds fixed (stated assumption of the correspondence: harness runs them active)',
  FO: 'proposal-flag reads inside the uninterpreted executors',
+ PF: 'facts about statement order / bounds the model relies on, pinned verbatim: a re-ordered statement or a changed bound changes the key',
  PS: 'process-local state touched by functions reachable from VMExecutor.Execute (run-time-assigned package variables, side stores in struct fields of core/service/executor/middleware types, context entries), each with the reason it cannot make two replicas differ — or the recorded finding it belongs to',
 }
 def block(name):
@@ -151,7 +164,7 @@ open Rangers.Generated.NondetSites
 
 set_option maxRecDepth 20000
 
-''' + ''.join(block(n) for n in (M, I, O, FM, FF, FO, PS)) + '''def accounted : List Nat := modelled ++ provedIrrelevant ++ outOfPath ++ flagsModelled ++ flagsHeldFixed ++ flagsInUninterpreted ++ processLocalAccounted
+''' + ''.join(block(n) for n in (M, I, O, FM, FF, FO, PS, PF)) + '''def accounted : List Nat := modelled ++ provedIrrelevant ++ outOfPath ++ flagsModelled ++ flagsHeldFixed ++ flagsInUninterpreted ++ processLocalAccounted ++ pinnedFacts
 
 theorem sites_accounted_bool : siteKeys.all (fun k => accounted.contains k) = true := by
   decide
@@ -177,8 +190,13 @@ theorem flag_reads_pinned :
 
 /-- every process-local state access found on the execution path is one of the classified ones -/
 theorem process_local_reads_pinned :
-    ((sites.filter (fun s => s.kind == "global" || s.kind == "store" || s.kind == "ctx" || s.kind == "gwrite")).map (·.key)).all
+    ((sites.filter (fun s => s.kind == "global" || s.kind == "store" || s.kind == "ctx" || s.kind == "gwrite" || s.kind == "chainread")).map (·.key)).all
       (fun k => processLocalAccounted.contains k) = true := by
+  decide
+
+/-- the statement-order fact of `VMExecutor.Execute` and the BLOCKHASH window are exactly the pinned ones -/
+theorem order_and_bounds_pinned :
+    ((sites.filter (fun s => s.kind == "order" || s.kind == "bound")).map (·.key)) = pinnedFacts := by
   decide
 
 example : processLocalAccounted ≠ [] := by decide
